@@ -421,15 +421,16 @@ type Session struct {
 	peer *Session
 	name string
 
-	mu      sync.Mutex
-	q       [][]byte
-	eof     bool
-	closed  bool
-	severed bool
-	notify  chan struct{}
-	sendN   int
-	lastAt  time.Duration
-	blocked chan struct{} // non-nil: Send waits until it is closed (back-pressure from a peer that does not read)
+	mu       sync.Mutex
+	q        [][]byte
+	eof      bool
+	closed   bool
+	severed  bool
+	notify   chan struct{}
+	sendWake chan struct{} // wakes a Send parked by BlockPeerSend when the session ends (never shared with Recv: a wake-up taken by the wrong waiter is a lost message)
+	sendN    int
+	lastAt   time.Duration
+	blocked  chan struct{} // non-nil: Send waits until it is closed (back-pressure from a peer that does not read)
 }
 
 // BlockPeerSend makes the Send calls of the other end block (a peer that has stopped reading, so the
@@ -466,6 +467,10 @@ func (s *Session) wake() {
 	case s.notify <- struct{}{}:
 	default:
 	}
+	select {
+	case s.sendWake <- struct{}{}:
+	default:
+	}
 }
 
 func (s *Session) push(data []byte, eof bool, rec *WireRec) {
@@ -494,7 +499,7 @@ func (s *Session) Send(data []byte) error {
 		s.mu.Unlock()
 		select {
 		case <-ch:
-		case <-s.notify:
+		case <-s.sendWake:
 		}
 		s.mu.Lock()
 	}
@@ -646,8 +651,8 @@ func (l *Link) ConnectDatagram() (*Session, *Session) {
 	l.mu.Lock()
 	l.gen++
 	g := l.gen
-	a := &Session{w: l.w, l: l, gen: g, side: 0, name: l.Ends[0], notify: make(chan struct{}, 1)}
-	b := &Session{w: l.w, l: l, gen: g, side: 1, name: l.Ends[1], notify: make(chan struct{}, 1)}
+	a := &Session{w: l.w, l: l, gen: g, side: 0, name: l.Ends[0], notify: make(chan struct{}, 1), sendWake: make(chan struct{}, 1)}
+	b := &Session{w: l.w, l: l, gen: g, side: 1, name: l.Ends[1], notify: make(chan struct{}, 1), sendWake: make(chan struct{}, 1)}
 	a.peer, b.peer = b, a
 	l.sess[0], l.sess[1] = a, b
 	l.mu.Unlock()
